@@ -140,11 +140,78 @@ class Header:
                 k += 1
             raise Unrecognised(f"expected_errors.h: missing {stop!r}")
 
+        # braces: 'block' (while/if) or a switch context. A switch is lowered to a chain of ifs on a temporary, the labels
+        # that fall through into a block accumulating in its test:  switch (e) {case 2: A; case 1: B;}  becomes
+        #   __sw1 = e;  if __sw1 == 2: A;  if __sw1 == 2 or __sw1 == 1: B
+        blocks = []
+        n_switch = 0
+        raw_append = lines.append
+
+        def emit(line_):
+            nonlocal indent
+            sw = next((b for b in reversed(blocks) if isinstance(b, dict)), None)
+            if sw is not None and sw["pending"] and blocks and blocks[-1] is sw:
+                if not sw["active"]:
+                    raise Unrecognised("expected_errors.h: statement in a switch before the first case label")
+                raw_append("    " * indent + "if " + " or ".join(f"{sw['var']} == {k}" for k in sw["active"]) + ":")
+                indent += 1
+                sw["pending"] = False
+                sw["open"] = True
+                line_ = "    " + line_
+            raw_append(line_)
+
+        class _L:
+            append = staticmethod(emit)
+
+        lines_out = lines
+        lines = _L
+
         while i < len(toks):
             kind, t = toks[i]
             if kind == "op" and t == "}":
-                indent -= 1
+                b = blocks.pop() if blocks else "block"
+                if isinstance(b, dict):
+                    if b["open"]:
+                        indent -= 1
+                else:
+                    indent -= 1
                 i += 1
+                continue
+            if kind == "id" and t == "switch":
+                if toks[i + 1] != ("op", "("):
+                    raise Unrecognised("expected_errors.h: '(' expected")
+                j = until(")", i + 2)
+                if toks[j + 1] != ("op", "{"):
+                    raise Unrecognised("expected_errors.h: '{' expected after switch (...)")
+                n_switch += 1
+                var = f"__sw{n_switch}"
+                lines.append("    " * indent + f"{var} = " + self._expr(toks[i + 2:j]))
+                blocks.append({"var": var, "active": [], "pending": False, "open": False, "dead": False})
+                i = j + 2
+                continue
+            if kind == "id" and t in ("case", "default") and blocks and isinstance(blocks[-1], dict):
+                sw = blocks[-1]
+                if t == "default":
+                    raise Unrecognised("expected_errors.h: 'default' is outside the supported subset")
+                j = i + 1
+                while j < len(toks) and toks[j] != ("op", ":"):
+                    j += 1
+                label = "".join(tt for _, tt in toks[i + 1:j])
+                if not re.fullmatch(r"-?\d+", label):
+                    raise Unrecognised(f"expected_errors.h: case label {label!r} is not an integer literal")
+                if sw["open"]:
+                    indent -= 1
+                    sw["open"] = False
+                if sw["dead"]:
+                    sw["active"] = []
+                    sw["dead"] = False
+                sw["active"].append(label)
+                sw["pending"] = True
+                i = j + 1
+                continue
+            if kind == "id" and t == "break" and blocks and isinstance(blocks[-1], dict):
+                blocks[-1]["dead"] = True  # the labels collected so far do not reach the next block
+                i += 2 if toks[i + 1] == ("op", ";") else 1
                 continue
             if kind == "op" and t == ";":
                 i += 1
@@ -158,6 +225,7 @@ class Header:
                     raise Unrecognised("expected_errors.h: braces are required after while/if in the supported subset")
                 lines.append("    " * indent + f"{t} {cond}:")
                 indent += 1
+                blocks.append("block")
                 i = j + 2
                 continue
             if kind == "id" and t == "else":
@@ -193,6 +261,7 @@ class Header:
             n = ops[0]
             lines.append("    " * indent + self._expr(stmt[:n]) + " " + stmt[n][1] + " " + self._expr(stmt[n + 1:]))
             i = j + 1
+        lines = lines_out
         src = f"def {name}({', '.join(params)}):\n" + "\n".join(lines) + "\n"
         try:
             return ast.parse(src).body[0], src
